@@ -8,7 +8,9 @@ mkdir -p "$WORK/src"; cp "$HERE/src/main.rs" "$WORK/src/"
 sed "s|@REPO@|$REPO|" "$HERE/Cargo.toml.in" > "$WORK/Cargo.toml"
 cp /repo/Cargo.lock "$WORK/Cargo.lock" 2>/dev/null || true
 export CARGO_TARGET_DIR=${PQ_CEX_TARGET:-$WORK/target} CARGO_NET_OFFLINE=true
+rm -f "$CARGO_TARGET_DIR/debug/pq-cex"
 (cd "$WORK" && cargo build --offline -q 2>&1 | grep -E "^error" -A8 | head -20)
+[ -x "$CARGO_TARGET_DIR/debug/pq-cex" ] || { echo "pq-cex does not build against $REPO"; exit 3; }
 RUST_BACKTRACE=0 timeout ${PQ_CEX_TIMEOUT:-120} "$CARGO_TARGET_DIR/debug/pq-cex" "$@" 2>&1 | tail -80
 rc=${PIPESTATUS[0]}
 [ -z "$PQ_CEX_WORK" ] && rm -rf "$WORK"
